@@ -24,6 +24,7 @@ input classes that are known to loop (an extension whose argument is the matrix 
 a concatenation in which two subset names collide) - runs under budget.budgeted() with a
 fixed line budget; 'hang' = more than LINE_BUDGET lines of dendropy code executed.
 """
+import array
 import itertools
 
 from dendropy import TaxonNamespace
@@ -104,15 +105,17 @@ ROWOPS = {"remove": "remove_sequences", "discard": "discard_sequences", "keep": 
 
 def bounds(tier):
     if tier == "quick":
-        return {"depth": {"dna": [3, 3, 2], "standard": [2, 2, 2], "continuous": [2, 2, 2]},
+        return {"depth": {"dna": [3, 3, 2], "standard": [3, 3, 2], "continuous": [3, 3, 2]},
                 "data_types": list(DTYPES), "namespace_sizes": [1, 2, 3], "pool": "base(9)",
                 "concat_list_len_full_pool": 2, "concat_list_len_subpool": 3, "concat_with_current_len": 2,
+                "concat_with_current_len3_depth": -1,
                 "max_columns": 6, "all_index_subsets_up_to_columns": 4,
                 "self_extension_depth": 0, "name_collision_depth": 1, "name_collision_depth_lists_of_3": 0,
                 "line_budget": LINE_BUDGET, "chunk_states": 24}
     return {"depth": {"dna": [3, 3, 3], "standard": [3, 3, 3], "continuous": [3, 3, 3]},
             "data_types": list(DTYPES), "namespace_sizes": [1, 2, 3], "pool": "base(9)+case-variant+locus-label(11)",
             "concat_list_len_full_pool": 3, "concat_list_len_subpool": 3, "concat_with_current_len": 3,
+            "concat_with_current_len3_depth": 1,
             "max_columns": 7, "all_index_subsets_up_to_columns": 5,
                 "self_extension_depth": 1, "name_collision_depth": 1, "name_collision_depth_lists_of_3": 0,
             "line_budget": LINE_BUDGET, "chunk_states": 24}
@@ -487,13 +490,13 @@ def is_hang_prone(cfg, state, op, b):
     return False
 
 
-def concat_lists_with_current(cfg, b, npool):
+def concat_lists_with_current(cfg, b, npool, depth):
     args = list(range(npool)) + ["foreign"]
     out = [("self",), ("self", "self")]
     for a in args:
         out.append(("self", a))
         out.append((a, "self"))
-    if b["concat_with_current_len"] >= 3:
+    if b["concat_with_current_len"] >= 3 and depth <= b["concat_with_current_len3_depth"]:
         sub = [a for a in SUBPOOL] + ["foreign", "self"]
         for l3 in itertools.product(sub, repeat=3):
             if "self" in l3:
@@ -556,7 +559,7 @@ def enabled_ops(cfg, state, depth, b):
     for k in range(len(subsets)):
         ops.append(("export_sub", k, "label"))
         ops.append(("export_sub", k, "object"))
-    for lst in concat_lists_with_current(cfg, b, len(P)):
+    for lst in concat_lists_with_current(cfg, b, len(P), depth):
         op = ("concat", lst)
         plan = concat_plan([arg_snapshot(cfg, b, a, state) for a in lst])
         if plan["status"] == "valid" and maxlen(plan["rows"]) > cap:
@@ -1034,10 +1037,12 @@ def run_starts(chunk, ctx):
 
 
 def digest(state):
-    """what the explorer needs to know about a state of the last level (never expanded)"""
+    """what the explorer needs to know about a state of the last level (never expanded), packed into one
+    unsigned 64-bit number: 56 bits of the state's hash + widest row (4 bits) + ragged / taxa missing /
+    has subsets / has cells"""
     rows = state[1]
-    return (hash(state), maxlen(rows), int(not is_rect(rows)), int(not is_full(rows)), int(bool(state[2])),
-            int(ncells(rows) > 0))
+    return ((hash(state) & 0xFFFFFFFFFFFFFF) << 8) | (min(maxlen(rows), 15) << 4) | (int(not is_rect(rows)) << 3) | \
+        (int(not is_full(rows)) << 2) | (int(bool(state[2])) << 1) | int(ncells(rows) > 0)
 
 
 def _expand_state(cfg, state, depth, last, b, ctx, out, seen_local, pidx):
@@ -1080,6 +1085,8 @@ def run_level(chunk, ctx):
             written.append({"call": opstr(cfg, o), "result": pretty(nxt) if nxt is not None else "(exception / violation: no successor)"})
         ctx.sample({"config": "%s, %d taxa" % cfg, "depth": chunk["depth"], "m": pretty(st), "enabled_ops": len(ops),
                     "some_transitions": written}, 2)
+    if chunk["last"]:
+        return array.array("Q", out).tobytes()
     return out
 
 
@@ -1088,7 +1095,7 @@ def configs(b):
 
 
 def _count_state(ctx, cfg, depth, d):
-    h, cols, ragged, missing, subs, cells = d
+    h, cols, ragged, missing, subs, cells = d >> 8, (d >> 4) & 15, (d >> 3) & 1, (d >> 2) & 1, (d >> 1) & 1, d & 1
     ctx.case((cfg, "s", h), nontrivial=cfg[1] >= 2 and bool(cells))
     ctx.count("states")
     ctx.count("states_at_depth_%d" % depth)
@@ -1137,7 +1144,7 @@ def explore(tier, runner):
             for s, op in r:
                 if (cfg, s) not in parent:
                     parent[(cfg, s)] = (None, op)
-                    seenh[cfg].add(hash(s))
+                    seenh[cfg].add(digest(s) >> 8)
                     level[d][cfg].append(s)
     ctx.count("start_states", sum(len(v) for d in (0, 1) for v in level[d].values()))
     frontier = {cfg: sorted(level[0][cfg], key=repr) for cfg in cfgs}
@@ -1172,15 +1179,17 @@ def explore(tier, runner):
         for ch, r in zip(chunks, results):
             cfg = tuple(ch["cfg"])
             if ch["last"]:
-                for d in r:
-                    if d[0] not in seenh[cfg]:
-                        seenh[cfg].add(d[0])
+                ds = array.array("Q")
+                ds.frombytes(r)
+                for d in ds:
+                    if (d >> 8) not in seenh[cfg]:
+                        seenh[cfg].add(d >> 8)
                         _count_state(ctx, cfg, depth + 1, d)
                 continue
             for succ, pidx, op in r:
                 if (cfg, succ) not in parent:
                     parent[(cfg, succ)] = (tup(ch["states"][pidx]), op)
-                    seenh[cfg].add(hash(succ))
+                    seenh[cfg].add(digest(succ) >> 8)
                     _count_state(ctx, cfg, depth + 1, digest(succ))
                     new[cfg].append(succ)
         frontier = {cfg: sorted(new[cfg], key=repr) for cfg in cfgs}
